@@ -704,6 +704,8 @@ pub fn run(args: &Args) {
             }
         }
     }
+    let mut t0 = std::time::Instant::now();
+    macro_rules! lap { ($k:expr) => { cx.sum.dist_max(concat!("ms_", $k), t0.elapsed().as_millis() as u64); t0 = std::time::Instant::now(); } }
     // enumerated: all bit strings up to a small length
     let maxlen = if args.thorough { 12 } else { 10 };
     for len in 0..=maxlen {
@@ -712,6 +714,7 @@ pub fn run(args: &Args) {
             one_vector(&mut cx, &bits, 0, &mut rng, v % 61 == 0);
         }
     }
+    lap!("enumerated");
     // long runs of ones (byte-wide lane counters of the bulk popcount kernels wrap at 256 per lane)
     for (lead, ones, tail, mode) in [(0usize, 20032usize, 0usize, 0u32), (8192, 8200, 100, 0), (8192, 16384, 37, 4), (100, 9000, 7000, 5)] {
         let mut bits = vec![false; lead]; bits.extend(std::iter::repeat(true).take(ones)); bits.extend(std::iter::repeat(false).take(tail));
@@ -721,6 +724,7 @@ pub fn run(args: &Args) {
     }
     // vectors given by (kind, n, seed): internal thresholds (32/33 blocks, 10^4, 2^14, 2^16, 2^20, 10^6)
     x::big_family(&mut cx, args.thorough);
+    lap!("kind_n_seed");
     let ngen = if args.thorough { 6000 } else { 420 };
     for i in 0..ngen {
         let bits = gen_bits(&mut rng, args.thorough);
@@ -732,6 +736,7 @@ pub fn run(args: &Args) {
         one_vector(&mut cx, &bits, mode, &mut r2, true);
         rng.next();
     }
+    lap!("generated");
     // BitVector operation histories
     let nhist = if args.thorough { 4000 } else { 400 };
     for i in 0..nhist {
@@ -740,6 +745,7 @@ pub fn run(args: &Args) {
         cx.sum.dist("bitvector_histories");
         bv_history(&mut cx, u, n, v, &ops, i % 2 == 0 || args.thorough);
     }
+    lap!("histories");
     // extended histories: the same operations mixed with reserve / get_mut / set_range_simd / bulk_bitwise_op_simd / clone / == /
     // from_raw_bits / unchecked accessors (oracle only)
     let nx = if args.thorough { 6000 } else { 700 };
@@ -749,6 +755,8 @@ pub fn run(args: &Args) {
         cx.sum.dist("bitvector_xhistories");
         x::x_history(&mut cx, st, n0, v0, sd, &ops);
     }
+    lap!("xhistories");
+    let _ = t0;
     cx.sum.dist_max("coq_cases", cx.shards.len() as u64);
     let sh = cx.shards.write(&args.out);
     cx.sum.write(&args.out, sh);
